@@ -223,6 +223,11 @@ def audit_stv(e, cands, Wd0, m, quota, simultaneous, transfer, tiebreak, transfe
                                      f"{exhausted_units} can be exhausted ballots")
                     moved = got
                 else:
+                    if transfer == "fractional" and tall[c] == 0:
+                        # a winner without a single vote (possible only with threshold 0): nothing to transfer, and the real
+                        # transfer function divides by the tally -- the round cannot have been carried out as the rules say
+                        probs.append(f"{tag}: {c} recorded as elected over the threshold {T} with a tally of 0")
+                        return probs
                     fac = (tall[c] - T) / tall[c] if transfer == "fractional" else F(1)
                     moved = {k: w * fac for k, w in pool.items() if w * fac > 0}
                 for k, w in moved.items():
